@@ -88,9 +88,27 @@ def g1(prog, rep):
     oks = result_blocks(body, "Ok")
     rep.check(bool(oks) and bool(push) and all(body.must_pass_block(push[0].bb, o) for o in oks), "G1",
               "ok=>pushed", "try_push can report success without storing the action", body.describe())
+    # what is stored is exactly what was measured: the bundle holds Action::RollupDataSubmission
+    # of the very value whose encoded length was charged (no conversion in between - e.g. a fee
+    # asset rewritten to its longer ibc/.. form after measuring - and no in-place edit)
+    measured = {body.root(c.args[0]) for c in body.calls if short_name(c.callee) == "encoded_len"}
     for c in push:
-        rep.check("seq_action" in body.root(c.args[1]), "G1", "push-operand",
-                  f"pushes {body.root(c.args[1])[:60]}", c.where())
+        r = body.root(c.args[1])
+        m = re.fullmatch(r"adt:[\w:]*Action::RollupDataSubmission\{(.*)\}", r)
+        stored = m.group(1) if m else r
+        rep.check(bool(m) and stored in measured and len(measured) == 1, "G1", "stored=measured",
+                  f"the bundle stores `{stored[:70]}` but charged the encoded length of "
+                  f"{sorted(x[:50] for x in measured)}: the size accounting does not describe the "
+                  "bytes that are submitted", c.where())
+        edits = [f"{what} (L{line})" for l in body.move_chain(c.args[1])
+                 for (_bb, line, what) in body.mut_uses(l)]
+        for i, j, p, rv, line in body.aggregates("adt", r"action::Action$"):
+            for opnd in rv[4]:
+                edits += [f"{what} (L{ln})" for l in body.move_chain(opnd)
+                          for (_bb, ln, what) in body.mut_uses(l)]
+        rep.check(not edits, "G1", "stored-unedited",
+                  f"the measured action is modified in place before it is stored: {edits[:3]}",
+                  c.where())
 
 
 def g2(prog, rep):
